@@ -45,7 +45,7 @@ def rand_case(rng, n=None, kinds=None):
                             positions=[[0, 0, 0], [rng.uniform(0.6, 1.4), rng.uniform(0, 0.5), 0.1], [0.3, rng.uniform(0.8, 1.6), rng.uniform(0, 1)]],
                             energy=rng.choice([round(rng.uniform(-5, 5), 3), -1.0]), tag=i))
     kinds = kinds or rng.choice([["vec"], ["vec", "vec"], ["default"], ["vec", "pair"], ["pair"], ["pair", "pair"], ["default", "vec", "pair"], ["default", "default"],
-                                 ["vec", "pair", "pair"], ["const"], ["const", "vec"], ["zeropair", "pair"], ["zeropair"]])
+                                 ["vec", "pair", "pair"], ["const"], ["const", "vec"], ["zeropair", "pair"], ["zeropair"], ["offset"], ["offset", "vec"]])
     genes = []
     for gi, k in enumerate(kinds):
         w = rng.choice([1.0, 0.5, 2.0, rng.uniform(0.05, 7.0)])
@@ -56,6 +56,10 @@ def rand_case(rng, n=None, kinds=None):
                 for r in vals:
                     r[0] = vals[0][0]        # a constant column inside a varying gene
             genes.append(dict(kind="vec", name="cv%d" % gi, weight=w, vals=vals, flat=(gn == 1 and rng.random() < 0.5)))
+        elif k == "offset":
+            # values sharing a large offset and differing by little (total energies in eV differing by meV): differences must survive
+            base = rng.choice([-1.0e4, -8.7e4, 3.3e5])
+            genes.append(dict(kind="vec", name="co%d" % gi, weight=w, vals=[[base + rng.randint(0, 4000) / 1.0e5] for _ in range(n)], flat=False))
         elif k == "const":
             genes.append(dict(kind="vec", name="cc%d" % gi, weight=w, vals=[[3.25]] * n, flat=False))
         elif k == "pair":
@@ -74,6 +78,8 @@ def rand_case(rng, n=None, kinds=None):
     rng.shuffle(genes)          # pair genes before, between and after vector genes
     nr = rng.choice([(0.0, 1.0), (0.0, 1.0), (-1.0, 2.5), (rng.randint(-8, 8) / 4, None), (None, rng.randint(-8, 8) / 4), (None, None), (0.5, 0.5)])
     nd = rng.choice([1.0, 1.0, 2.5, None])
+    if any(g["name"].startswith("co") for g in genes) and rng.random() < 0.7:
+        nr = (None, None)          # un-normalised: the raw offsets enter the distance computation
     case = dict(structs=structs, genes=genes, norm_range=list(nr), norm_dist=nd)
     if rng.random() < 0.4 and genes:
         pre = []
@@ -273,6 +279,18 @@ def check_case(case, t_u=(0.37, 0.81), km_k=None, perm=None, collect=None):
             collect.setdefault("labels", []).append(([int(x) for x in labels], [[int(i) for i in s] for s in slices]))
             if method == "single":
                 collect["single"] = (D, t, [int(x) for x in labels])
+    # a sequence on ONE object: another linkage method first, then single linkage (no stale linkage may be reused)
+    try:
+        pseq = build(case)
+        m0 = METHODS[1 + (n % 3)]
+        pseq.get_hier_clusters(ts[m0], method=m0)
+        pseq.get_linkage(method=m0)
+        lseq, sseq = pseq.get_hier_clusters(ts["single"], method="single")
+        if partition_of(lseq) != uf_components(D, ts["single"]):
+            probs.append("after get_hier_clusters(method=%r) on the same object, the single-linkage clusters at t=%.6f are %s; the components are %s" %
+                         (m0, ts["single"], sorted(map(sorted, partition_of(lseq))), sorted(map(sorted, uf_components(D, ts["single"])))))
+    except Exception as e:
+        probs.append("method sequence on one object raised %s: %s" % (type(e).__name__, str(e)[:120]))
     if not haspair:
         k = km_k or max(1, min(n, 2))
         np.random.seed(12345)
@@ -330,7 +348,7 @@ def run(ctx):
     quick = ctx.tier == "quick"
     ctx.rule = ("collections of 2..15 three-atom structures (random cells incl. equal axes, energies incl. ties) x gene sets from {custom vector genes (1-5 columns, "
                 "flat or 2-d, constant columns), constant genes, custom pair genes (Euclidean distances of hidden points, 1-2 layers), all-zero pair genes, "
-                "latt_abc_len, latt_abc_ang, latt_cart, energy, linkage_list} x positive weights x norm_range in {(0,1), (-1,2.5), (lo,None), (None,hi), "
+                "values with a large common offset, latt_abc_len, latt_abc_ang, latt_cart, energy, linkage_list} x positive weights x norm_range in {(0,1), (-1,2.5), (lo,None), (None,hi), "
                 "(None,None), (0.5,0.5)} x norm_dist in {1, 2.5, None} x call histories (earlier set_genes with sub-lists / other weights on the same object) x thresholds between consecutive pair distances x 4 linkage methods x k-means k x a "
                 "random permutation")
     ctx.trusted += ["hand models coq/model/PhyloBody.v (normalisation, scaling, squared distance) and Clusters.v (groups from labels; threshold-graph components as "
